@@ -130,9 +130,11 @@ theorem deadlock_free {init s : State} (hi : Init init) (r : Reach init s)
 
 /-! ## The regenerated table -/
 
-/-- The only flag that is permitted: `Traverse`'s producer goroutine sends to the method's own
-caller while holding the read lock (see `traverse_producer_progress`). -/
-def allowedFlags : List String := ["traverseProducer"]
+/-- No flag is permitted.  (Until /repo de6a3af `BsTree.Traverse` sent the items to its caller from a helper
+goroutine that held the read lock, and that one shape — `traverseProducer` — was admitted under the reading that the
+callback does not use the tree.  Three independent reviewers showed the deadlock that reading hid; Traverse now collects
+under the read lock and calls back after releasing it, so it is an ordinary `r` section and the exception is gone.) -/
+def allowedFlags : List String := []
 
 def pathOk (p : PathEntry) : Bool :=
   p.flags.all (allowedFlags.contains ·) && p.sects.all (fun s => decide s.WellLocked)
@@ -174,18 +176,9 @@ theorem containers_deadlock_free {init s : State} (h : ∀ i, FromTable (init i)
     (i : Nat) (hunf : (s i).cur ≠ none ∨ (s i).rest ≠ []) : ∃ s', Step s s' :=
   deadlock_free (init_of_fromTable h) r i hunf
 
-/-- The permitted `traverseProducer` shape: a producer holding `r` and sending on an unbuffered
-channel to a consumer that holds nothing and does nothing but receive: whenever the producer wants to
-send, the hand-over step is enabled (so holding `r` while sending cannot block forever, under the
-reading that the user callback does not call back into the tree). -/
-inductive ProdCons | producing (left : Nat) | done
-def prodConsStep : ProdCons → Option ProdCons
-  | .producing 0 => some .done
-  | .producing (n + 1) => some (.producing n)
-  | .done => none
-
-theorem traverse_producer_progress (n : Nat) : ∃ s', prodConsStep (.producing n) = some s' := by
-  cases n <;> simp [prodConsStep]
+/-- a method that sends on a channel (or otherwise blocks) while holding a lock is rejected -/
+example : pathOk { sects := [⟨some .r, [⟨0, false⟩]⟩], flags := ["blocksWhileHolding"] } = false := by decide
+example : pathOk { sects := [⟨some .r, [⟨0, false⟩]⟩], flags := ["traverseProducer"] } = false := by decide
 
 /-- non-vacuity: a concrete two-thread system built from well-locked sections is an `Init` state -/
 example : Init (fun i => if i = 0 then ⟨none, [⟨some .w, [⟨0, true⟩]⟩]⟩
